@@ -18,6 +18,7 @@ trusted base), norm non-expansion numerically.
 """
 from .. import protocols
 from ..harness import arr, extobj, scalar
+from .. import tq
 from ..interp import State
 from ..terms import T
 
@@ -88,7 +89,7 @@ def check(ctx):
     o = ctx.construct(I, st, cls, use_orthogonal_projector=True, linear_estimator=est)
     ctx.call_method(I, st, o, "fit", arr("X", "N", "M"), arr("y", "N", "P"))
     coef = ctx.attr(st, o, "coef_")
-    ctx.ob("NF-PROCRUSTES", "a user-supplied linear estimator is the one whose coefficients are used", "user_linear" in repr(coef.term) and "LinearRegression" not in repr(coef.term), repr(coef.term)[:160], ctx.site(P.method(cls, "fit")))
+    ctx.ob("NF-PROCRUSTES", "a user-supplied linear estimator is the one whose coefficients are used", tq.has_sym(coef.term, "user_linear") and not any(x.op == "new" and x.args[0] == "LinearRegression" for x in tq.walk_all(coef.term)), repr(coef.term)[:160], ctx.site(P.method(cls, "fit")))
 
 
 def _outside_svd(t, leaf):
